@@ -114,7 +114,7 @@ def build_state(rng):
             do(('inv_set', V, u, g(u), [gen_inventory(rng, rc) for rc in sorted(rcs)]))
     for u in provs:
         ts = [t for t in (T_AVX, T_SSD, T_CUSTOM) if rng.random() < 0.4]
-        p_share = 0.12 if depth[u] == 1 else 0.06
+        p_share = 0.12 if depth[u] == 1 else 0.1
         if u == sharer or rng.random() < p_share:
             ts.append(MISC)
         if ts:
@@ -263,6 +263,8 @@ def gen_cand_query(rng, b):
         if s == 0 and scenario is not None:
             rc = rng.choice(sorted(b.st.invs[scenario]))
             picked = [(rc, scenario)] + [(c, w) for c, w in picked if c != rc][:2]
+            if rng.random() < 0.3:
+                picked = picked[:1]              # everything from the sharing provider
         resources = [(rc, _pick_amount(rng, b, rc, w)) for rc, w in picked]
         wit = sorted(set(w for _rc, w in picked if w is not None))
         if rng.random() < 0.015:
@@ -276,6 +278,8 @@ def gen_cand_query(rng, b):
         in_tree = None
         if v >= 31 and rng.random() < (0.25 if s == 0 and scenario is not None else 0.12 * damp):
             in_tree = rng.choice(wit or b.providers) if rng.random() < 0.93 else 9
+            if s == 0 and scenario is not None and rng.random() < 0.5:
+                in_tree = scenario
         if s != 0 and v >= 36 and rng.random() < 0.15:
             resources = []                       # resourceless group: needs some other key + same_subtree
             kind = rng.choice(['keep', 'required', 'forbidden', 'member_of', 'in_tree', 'forbidden_aggs'])
@@ -560,8 +564,12 @@ def model_answer(b, q, workdir='/tmp'):
     return p.stdout + p.stderr
 
 
+LAST_STATS = {}
+
+
 def run(seed, n_states, n_queries, shard=20, workdir=None, verbose=True, keep=False):
-    """-> dict(cases=.., disagreements=[...], stats=...)"""
+    """-> list of disagreements (dicts with the state's ops and dump, the query, its HTTP form, the observed
+    canonical answer and the model's answer); statistics of the run are left in LAST_STATS"""
     rng = random.Random(seed)
     workdir = workdir or tempfile.mkdtemp(prefix='pvcand')
     os.makedirs(workdir, exist_ok=True)
@@ -629,10 +637,12 @@ def run(seed, n_states, n_queries, shard=20, workdir=None, verbose=True, keep=Fa
                 if key in d:
                     print('%s: %s' % (key, d[key]))
         print('seed %d: %d cases compared, %d disagreements' % (seed, len(allq), len(bad)))
-    return {'disagreements': bad, 'stats': stats}
+    LAST_STATS.clear()
+    LAST_STATS.update(stats)
+    return bad
 
 
 if __name__ == '__main__':
     a = [int(x) for x in sys.argv[1:4]]
     out = run(a[0] if a else 1, a[1] if len(a) > 1 else 60, a[2] if len(a) > 2 else 25)
-    sys.exit(1 if out['disagreements'] else 0)
+    sys.exit(1 if out else 0)
